@@ -9,7 +9,7 @@
        re-read as a nested rule by CSS Nesting parsers; '}' at the top level ends the rule);
      - every string is closed inside v and contains no line break (bad-string) and no trailing '\';
      - no comment opener "/*";
-     - no '\' that would escape the following ';' and no '\' followed by a line break;
+     - no '\' that would escape the following ';' and no '\' followed by a line break or by '<';
      - every '(' opens url( - an identifier that is exactly "url" (ASCII case-insensitively), not the tail
        of a longer identifier, hash, at-keyword or dimension, and not written with escapes;
      - a url( token / function is closed inside v; a bad-url (4.3.14: its remnants run to the next
@@ -102,7 +102,7 @@ Definition step (s : st) (c : byte) : st :=
   | Bad => s
   | Normal => step_normal s c
   | Slash => if Byte.eqb c x2a then fail s else step_normal s c
-  | Esc => if css_nl c then fail s else mk Normal (stack s) (x5c :: prev s) [] (urls s)
+  | Esc => if css_nl c || Byte.eqb c x3c then fail s else mk Normal (stack s) (x5c :: prev s) [] (urls s)
   | Str q u =>
       if Byte.eqb c q then
         (if u then mk Normal (stack s) [] [] (rev (cur s) :: urls s) else mk Normal (stack s) [] [] (urls s))
